@@ -279,9 +279,9 @@ def CompleteOwnerOk (s : State) (b k : Bytes) (id : Nat) (pl : List (Option Int)
     | some cs => sizesOk cs = true → CompleteSuccessOk s b k id)
 
 /-- `complete_multipart_upload` comparable: a non-empty part list is given [else fs:complete-part-list-validation]; the
-    upload does not exist (`NoSuchUpload` on both sides since 4609ab3; before: fs:unknown-upload-code), or it was created for
-    this bucket and key [else fs:upload-not-bound-to-key] and, if the requester owns it, the request meets
-    `CompleteOwnerOk` -/
+    upload does not exist under this bucket and key (`NoSuchUpload` on both sides since 4609ab3 and, for an upload created
+    for another bucket or key, 6bf591c; before: fs:unknown-upload-code, fs:upload-not-bound-to-key), or, if the requester owns
+    it, the request meets `CompleteOwnerOk` -/
 def CompleteOk (s : State) (who : Who) (b k : Bytes) (u : UploadRef) (parts : Option (List (Option Int))) : Prop :=
   match parts with
   | none => False
@@ -292,7 +292,7 @@ def CompleteOk (s : State) (who : Who) (b k : Bytes) (u : UploadRef) (parts : Op
     | some id =>
       match alLookup id s.uploads with
       | none => True
-      | some ui => ui.bucket = b ∧ ui.key = k ∧ (ui.owner = who → CompleteOwnerOk s b k id pl)
+      | some ui => ui.bucket = b ∧ ui.key = k → ui.owner = who → CompleteOwnerOk s b k id pl
 
 end S3V.FsStore
 
@@ -396,15 +396,24 @@ theorem complete_refines (H : Hashes) (dl : Nat) {s : State} (hi : Inv s) {who :
       simp only at hg
       cases hl : alLookup id s.uploads with
       | none =>
-        have habs : AbsentUpload s (some id) := hl
-        have hup := habs.upload b k
+        have habs : AbsentUpload s (some id) b k := by simp [AbsentUpload, hl]
+        have hup := habs.upload
         cases pl with
         | nil => exact absurd rfl hne
         | cons o t => simp [step, StoreSpec.step, hup, habs.verify who, hi]
       | some ui =>
         rw [hl] at hg
         simp only at hg
-        obtain ⟨hub, huk, hsucc⟩ := hg
+        by_cases hbk : ui.bucket = b ∧ ui.key = k
+        case neg =>
+          -- created for another bucket or key: `NoSuchUpload` on both sides (6bf591c)
+          have habs : AbsentUpload s (some id) b k := by simp only [AbsentUpload, hl]; exact hbk
+          have hup := habs.upload
+          cases pl with
+          | nil => exact absurd rfl hne
+          | cons o t => simp [step, StoreSpec.step, hup, habs.verify who, hi]
+        obtain ⟨hub, huk⟩ := hbk
+        have hsucc := hg ⟨hub, huk⟩
         have hup : (abs s).upload (some id) b k = some (id, upOf s id ui) := by
           unfold Store.upload
           simp only [abs_upload_lookup, hl, Option.map_some]
@@ -439,7 +448,7 @@ theorem complete_refines (H : Hashes) (dl : Nat) {s : State} (hi : Inv s) {who :
                 rw [hcs] at hs4'
                 have hstep : step H dl s (.completeMultipartUpload who b k (some id) (some (o :: t))) =
                     (s, .err .InvalidPart) := by
-                  simp [step, State.verify, hl, hown, objPath, hbd, hkp, hm]
+                  simp [step, State.verify, findUpload_bound hl hub huk, hown, objPath, hbd, hkp, hm]
                 have hspec : StoreSpec.step H (abs s) (.completeMultipartUpload who b k (some id) (some (o :: t))) =
                     (abs s, .err .InvalidPart) := by
                   simp [StoreSpec.step, hup, hown', hs1, hs2, hpp, hs4']
@@ -459,7 +468,7 @@ theorem complete_refines (H : Hashes) (dl : Nat) {s : State} (hi : Inv s) {who :
                   rw [hsz] at hts
                   have hstep : step H dl s (.completeMultipartUpload who b k (some id) (some (o :: t))) =
                       (s, .err .EntityTooSmall) := by
-                    simp [step, State.verify, hl, hown, objPath, hbd, hkp, hm, hts]
+                    simp [step, State.verify, findUpload_bound hl hub huk, hown, objPath, hbd, hkp, hm, hts]
                   have hspec : StoreSpec.step H (abs s) (.completeMultipartUpload who b k (some id) (some (o :: t))) =
                       (abs s, .err .EntityTooSmall) := by
                     simp [StoreSpec.step, hup, hown', hs1, hs2, hpp, hs4', hsz]
@@ -478,7 +487,7 @@ theorem complete_refines (H : Hashes) (dl : Nat) {s : State} (hi : Inv s) {who :
                     have hno' : alHas b (abs s).buckets = false := by rw [abs_alHas]; exact hno
                     have hstep : step H dl s (.completeMultipartUpload who b k (some id) (some (o :: t))) =
                         (s, .err .NoSuchBucket) := by
-                      simp [step, State.verify, hl, hown, objPath, hbd, hkp, hm, hts, hno]
+                      simp [step, State.verify, findUpload_bound hl hub huk, hown, objPath, hbd, hkp, hm, hts, hno]
                     have hspec : StoreSpec.step H (abs s) (.completeMultipartUpload who b k (some id) (some (o :: t))) =
                         (abs s, .err .NoSuchBucket) := by
                       simp [StoreSpec.step, hup, hown', hs1, hs2, hpp, hs4', hsz, hno']
@@ -512,7 +521,7 @@ theorem complete_refines (H : Hashes) (dl : Nat) {s : State} (hi : Inv s) {who :
                                     parts := eraseParts id ((numbered 0 cs).map (·.1)) s.parts,
                                     uploads := alErase id s.uploads },
                             .completed (some (etagOf H cs.flatten))) := by
-                        simp [step, State.verify, hl, hown, hshort, hshort', hum, objPath, hbd, hkp, hm, hts, hyes, hcont, hcommit]
+                        simp [step, State.verify, findUpload_bound hl hub huk, hown, hshort, hshort', hum, objPath, hbd, hkp, hm, hts, hyes, hcont, hcommit]
                       rw [hstep, hspec]
                       obtain ⟨h1, h2⟩ := complete_core (s' := { s with buckets := alInsert b (alInsert p (.file cs.flatten) (tr ++ ds)) s.buckets, metas := alErase (b, k) s.metas, infos := alInsert (b, k) {} s.infos, parts := eraseParts id ((numbered 0 cs).map (·.1)) s.parts, uploads := alErase id s.uploads })
                         hi hl hub huk ht hp hcanon hpath.2 hds hnd her rfl (by rw [hum]; rfl) (by rw [hum]; rfl)
@@ -526,13 +535,13 @@ theorem complete_refines (H : Hashes) (dl : Nat) {s : State} (hi : Inv s) {who :
                                     parts := eraseParts id ((numbered 0 cs).map (·.1)) s.parts,
                                     uploads := alErase id s.uploads },
                             .completed (some (etagOf H cs.flatten))) := by
-                        simp [step, State.verify, hl, hown, hshort, hshort', hum, objPath, hbd, hkp, hm, hts, hyes, hcont, hcommit]
+                        simp [step, State.verify, findUpload_bound hl hub huk, hown, hshort, hshort', hum, objPath, hbd, hkp, hm, hts, hyes, hcont, hcommit]
                       rw [hstep, hspec]
                       obtain ⟨h1, h2⟩ := complete_core (s' := { s with buckets := alInsert b (alInsert p (.file cs.flatten) (tr ++ ds)) s.buckets, metas := alInsert (b, k) (.good m) s.metas, upMetas := alErase (b, k, id) s.upMetas, infos := alInsert (b, k) {} s.infos, parts := eraseParts id ((numbered 0 cs).map (·.1)) s.parts, uploads := alErase id s.uploads })
                         hi hl hub huk ht hp hcanon hpath.2 hds hnd her rfl (by rw [hum]; rfl) (by rw [hum]; rfl)
                         rfl rfl rfl rfl
                       exact ⟨rfl, h1, h2⟩
           · have hown' : (upOf s id ui).owner ≠ who := hown
-            simp [step, StoreSpec.step, State.verify, hl, hown, hup, hown', hi]
+            simp [step, StoreSpec.step, State.verify, findUpload_bound hl hub huk, hown, hup, hown', hi]
 
 end S3V.FsStore
